@@ -26,7 +26,8 @@ enum Fail {
 #[derive(Clone, Debug)]
 struct Case {
     /// (format, value, size class)
-    goods: Vec<(Fmt, Val, u8)>,
+    /// (format, value, size class, input kind: 0..=5 regular file, 6..=8 FIFO, 9 standard input)
+    goods: Vec<(Fmt, Val, u8, u8)>,
     fail: Fail,
     fail_pos: usize,
     to: Fmt,
@@ -49,7 +50,7 @@ fn good_text(fmt: Fmt, v: &Val, size: u8, idx: usize) -> Vec<u8> {
 
 fn case_strategy() -> BoxedStrategy<Case> {
     (
-        proptest::collection::vec((prop_oneof![Just(Fmt::Json), Just(Fmt::Yaml), Just(Fmt::Msgpack), Just(Fmt::Toml)], val_strategy(Shape { depth: 3, size: 8, ..Shape::COMMON }), prop_oneof![5 => Just(0u8), 3 => Just(1u8), 2 => Just(2u8), 1 => Just(3u8)]), 1..7),
+        proptest::collection::vec((prop_oneof![Just(Fmt::Json), Just(Fmt::Yaml), Just(Fmt::Msgpack), Just(Fmt::Toml)], val_strategy(Shape { depth: 3, size: 8, ..Shape::COMMON }), prop_oneof![5 => Just(0u8), 3 => Just(1u8), 2 => Just(2u8), 1 => Just(3u8)], 0u8..10), 1..7),
         prop_oneof![
             1 => Just(Fail::None),
             2 => Just(Fail::Missing),
@@ -120,8 +121,14 @@ fn build(c: &Case) -> Invocation {
                     args.push(name.into());
                 }
                 Fail::SecondStdin => {
-                    if used_stdin {
+                    if used_stdin || c.goods.iter().skip(i).any(|g| g.3 == 9) {
+                        // standard input is (or will be) a good input: one more '-'
+                        // here is the second use, or makes the later one the second
                         args.push("-".into());
+                        if !used_stdin {
+                            used_stdin = true;
+                            stdin = b"{\"from\": \"stdin\"}".to_vec();
+                        }
                     } else {
                         args.push("-".into());
                         args.push("-".into());
@@ -132,10 +139,26 @@ fn build(c: &Case) -> Invocation {
             }
         }
         if i < n {
-            let (fmt, v, size) = &c.goods[i];
+            let (fmt, v, size, kind) = &c.goods[i];
             let name = format!("in{}.{}", i, ext(*fmt));
-            files.push(FileSpec { name: name.clone(), kind: FileKind::Regular(good_text(*fmt, v, *size, i)) });
-            args.push(name);
+            let text = good_text(*fmt, v, *size, i);
+            match kind {
+                // streams: a FIFO (format by extension), or standard input (format
+                // by detection) for the first input that asks for it
+                9 if !used_stdin => {
+                    used_stdin = true;
+                    stdin = text;
+                    args.push("-".into());
+                }
+                6..=8 => {
+                    files.push(FileSpec { name: name.clone(), kind: FileKind::Fifo(text) });
+                    args.push(name);
+                }
+                _ => {
+                    files.push(FileSpec { name: name.clone(), kind: FileKind::Regular(text) });
+                    args.push(name);
+                }
+            }
         }
     }
     let _ = used_stdin;
